@@ -593,16 +593,23 @@ SC_CLS = {"full": "FullCaseCitation", "short": "ShortCaseCitation", "supra": "Su
           "section": "UnknownCitation"}
 
 
-def render_scenario(cases, items):
+# reporter strings that are the NAME of two editions in different reporters (the year picks one; the short form, which has
+# no year, is still the same normalised reporter string)
+SC_RV_ALT = {"r1": ("Met.", "12", 1845), "r2": ("Wash.", "12", 1895), "r3": ("U.S.", "410", None)}
+
+
+def render_scenario(cases, items, alt=False):
     parts, spans = [], []
     pos = 0
     for k, it in enumerate(items):
         if it["case"]:
             c = cases[it["case"] - 1]
             rep, vol = SC_RV[c["rv"]]
+            if alt:
+                rep, vol, fixed_year = SC_RV_ALT[c["rv"]]
             pl, df = SC_WORDS[sorted(c["pl"])[0]], SC_WORDS[sorted(c["df"])[0]]
         if it["kind"] == "full":
-            s = f"{pl} v. {df}, {vol} {rep} {c['pg']} ({1950 + c['pg'] % 50})."
+            s = f"{pl} v. {df}, {vol} {rep} {c['pg']} ({(fixed_year if alt and fixed_year else 1950 + c['pg'] % 50)})."
         elif it["kind"] == "short":
             s = f"{df}, {vol} {rep}, at {c['pg'] + 2}." if it["ante"] else f"See {vol} {rep}, at {c['pg'] + 2}."
         elif it["kind"] == "supra":
@@ -636,7 +643,7 @@ def run_scenarios(payload):
     cases = payload["common"]["cases"]
     res = []
     for items in payload["items"]:
-        text, spans = render_scenario(cases, items)
+        text, spans = render_scenario(cases, items, alt=bool(payload["common"].get("alt")))
         o = {"text": text, "raised": "", "items": []}
         try:
             cs = get_citations(text)
